@@ -438,6 +438,131 @@ def bp_cv_tabulated(repo: Repo):
     return done(OK, f"{cases} check-to-variable messages on three graphs (irregular with a degree-1 check last and in the middle, regular; exact and series arctanh): 2 atanh of the tanh product over the other edges, in edge order")
 
 
+#: cycle-free parity-check matrices (no check of degree 1) for the end-to-end evaluation, with the message positions
+#: handed to the decoder (any k positions: the soft output is compared on all n)
+BP_TREES = (
+    ([[1, 1, 0, 0, 0], [0, 1, 1, 1, 0], [0, 0, 0, 1, 1]], [0, 2]),
+    ([[1, 1, 0, 0, 0, 0, 0], [1, 0, 1, 1, 0, 0, 0], [1, 0, 0, 0, 1, 1, 0], [0, 0, 0, 0, 0, 1, 1]], [1, 2, 4]),
+)
+
+
+def bp_end_to_end(repo: Repo):
+    """BeliefPropagationDecoder end to end, with own arithmetic: prep_edge_ind builds the decoder's tables for two
+    cycle-free parity-check matrices, then forward (decode_block, compute_vc, compute_cv, marginalize, apply_blockwise
+    and the module helpers followed) is evaluated for 1, 2 and 8 iterations, in the exact and the series arctanh mode,
+    with and without return_soft, on batches of 1, 2 and 3 words.  The soft output must equal the flooding schedule
+    (variable-to-check = posterior - incoming, check update 2 atanh prod tanh, posterior = channel + all incoming) after
+    exactly that many iterations - which after 8 iterations is the brute-force bitwise posterior LLR of the code - and
+    the decoded bits must be (posterior < 0) at the message positions, k per block.
+    Returns (status, detail) or (None, reason); cached on the repository object."""
+    if hasattr(repo, "_kv_bp_e2e"):
+        return repo._kv_bp_e2e
+    import itertools
+
+    from ..constfold import PySeq, Unfoldable
+    from ..frag import FragRaise, FragReturn, coverage_scope, run_fragment
+
+    def done(st, d):
+        repo._kv_bp_e2e = (st, d)
+        return st, d
+
+    ci = repo.cls(BP, "BeliefPropagationDecoder")
+    prep, fwd = repo.method(ci, "prep_edge_ind"), repo.method(ci, "forward")
+    funcs = {f"self.{nm}": m.node for nm, m in ci.methods.items() if nm not in ("forward", "__init__")}
+    funcs.update({nm: f.node for nm, f in ci.module.functions.items()})
+    for mi_ in repo.modules.values():
+        if mi_.relpath == "kaira/models/fec/utils.py":
+            funcs.update({nm: f.node for nm, f in mi_.functions.items()})
+    runs = 0
+    scope = coverage_scope()
+    scope.__enter__()
+    try:
+        for H, idx in BP_TREES:
+            n_c, n_v = len(H), len(H[0])
+            vdeg = [sum(H[r][c] for r in range(n_c)) for c in range(n_v)]
+            cdeg = [sum(r) for r in H]
+            base = {"self.H": [list(r) for r in H], "self.n_v": n_v, "self.n_c": n_c, "self.var_degree": list(vdeg), "self.check_degree": list(cdeg), "self.chk_degree": list(cdeg), "self.num_edges": sum(vdeg), "self.device": "cpu", "self.code_length": n_v, "self._length": n_v}
+            try:
+                run_fragment(prep.body, {}, base, funcs={k_: v_ for k_, v_ in funcs.items() if k_ != "self.prep_edge_ind"}, materialise=True, max_steps=1500000, attrs_live=True)
+            except FragReturn:
+                pass
+            except (Unfoldable, FragRaise, TypeError, IndexError, ValueError, KeyError) as exc:
+                return done(None, f"prep_edge_ind not evaluable ({exc})")
+            cws = [c for c in itertools.product([0, 1], repeat=n_v) if all(sum(h[i] * c[i] for i in range(n_v)) % 2 == 0 for h in H)]
+            edges = [(c, v) for v in range(n_v) for c in range(n_c) if H[c][v]]
+
+            def flooding(ch, iters, edges=edges, n_v=n_v):
+                cv = {e: 0.0 for e in edges}
+                post = list(ch)
+                for _ in range(iters):
+                    vc = {(c, v): max(-500.0, min(500.0, post[v] - cv[(c, v)])) for (c, v) in edges}
+                    new = {}
+                    for (c, v) in edges:
+                        p_ = 1.0
+                        for (c2, v2) in edges:
+                            if c2 == c and v2 != v:
+                                p_ *= math.tanh(vc[(c2, v2)] / 2)
+                        new[(c, v)] = 2 * math.atanh(max(-0.999, min(0.999, p_)))
+                    cv = new
+                    post = [ch[v] + sum(cv[(c, v2)] for (c, v2) in edges if v2 == v) for v in range(n_v)]
+                return post
+
+            rows = [[((-1) ** (i + 2 * r)) * (0.25 + 0.21 * ((i * 5 + r * 3) % 7)) for i in range(n_v)] for r in range(3)]
+            # sanity of the checker's own reference: 8 flooding iterations on a tree are the brute-force posterior
+            for ch in rows:
+                bf = []
+                for i in range(n_v):
+                    p0 = sum(math.exp(-sum(ch[j] * c[j] for j in range(n_v))) for c in cws if c[i] == 0)
+                    p1 = sum(math.exp(-sum(ch[j] * c[j] for j in range(n_v))) for c in cws if c[i] == 1)
+                    bf.append(math.log(p0 / p1))
+                assert all(abs(a - b) < 1e-6 for a, b in zip(flooding(ch, 8), bf)), (H, ch)
+            inputs = [[list(rows[0]), list(rows[1])], [list(rows[2])], [list(rows[1]), list(rows[2]), list(rows[0])]]  # (B, n): the layout decode_block unpacks
+            for iters in (1, 2, 8):
+                for exact in (True, False) if iters == 2 else (True,):
+                    for soft in (True, False) if exact else (True,):
+                        for x in inputs if (exact and soft) else inputs[1:2]:
+                            attrs = dict(base)
+                            attrs.update({"self.bp_iters": iters, "self.arctanh": exact, "self.not_ldpc": True, "self.standard": True, "self.idx_mess_t": list(idx), "self.return_soft": False, "self.code_dimension": len(idx), "self._dimension": len(idx)})
+                            try:
+                                run_fragment(fwd.body, {"received": [list(r) for r in x] if isinstance(x[0], list) else list(x), "args": [], "kwargs": ({"return_soft": True} if soft else {})}, attrs, funcs=funcs, materialise=True, max_steps=20000000, attrs_live=True)
+                                return done(None, "no value returned")
+                            except FragReturn as ret:
+                                got = ret.value
+                            except FragRaise:
+                                return done(VIOLATION, f"H = {H}: a valid input of {len(x) if isinstance(x[0], list) else 1} row(s) is rejected")
+                            except (Unfoldable, TypeError, IndexError, ValueError, KeyError, OverflowError, ZeroDivisionError) as exc:
+                                return done(None, f"forward not evaluable ({exc})")
+                            xr = x if isinstance(x[0], list) else [x]
+                            blocks = [[r[j * n_v:(j + 1) * n_v] for j in range(len(r) // n_v)] for r in xr]
+                            want_soft = [[v for b in bl for v in flooding(b, iters)] for bl in blocks]
+                            want_bits = [[float(p[j * n_v + i] < 0) for j in range(len(p) // n_v) for i in idx] for p in want_soft]
+                            if soft:
+                                if not (isinstance(got, (PySeq, list, tuple)) and len(got) == 2):
+                                    return done(None, "return_soft=True does not give a pair")
+                                bits, sv = got[0], got[1]
+                            else:
+                                bits, sv = got, None
+                            if not isinstance(x[0], list):
+                                bits, sv = [bits], ([sv] if sv is not None else None)
+                            tol = 1e-6 if exact else 1e-4
+                            try:
+                                if sv is not None and not (len(sv) == len(want_soft) and all(len(a) == len(b) and all(abs(p - q) <= tol for p, q in zip(a, b)) for a, b in zip(sv, want_soft))):
+                                    k_ = next(((r_, i_) for r_, (a, b) in enumerate(zip(sv, want_soft)) for i_, (p, q) in enumerate(zip(a, b)) if abs(p - q) > tol), None)
+                                    what = f"posterior LLR of bit {k_[1]} of row {k_[0]} is {sv[k_[0]][k_[1]]:.6g}; the flooding schedule gives {want_soft[k_[0]][k_[1]]:.6g}" if k_ else f"soft output of shape {[len(a) for a in sv]}, expected {[len(a) for a in want_soft]}"
+                                    return done(VIOLATION, f"H = {H} (cycle-free), {iters} iteration(s), arctanh={exact}, channel LLRs {[[round(v, 3) for v in r] for r in xr]}: {what}" + (" - the brute-force bitwise posterior of this code" if iters == 8 else " after exactly that many iterations (variable-to-check = posterior - incoming message, posterior = channel + all incoming)"))
+                                if not (len(bits) == len(want_bits) and all([float(v) for v in a] == b for a, b in zip(bits, want_bits))):
+                                    return done(VIOLATION, f"H = {H}, {iters} iteration(s), message positions {idx}: decoded bits {str(bits)[:120]}; (posterior < 0) at the message positions, k = {len(idx)} per block, is {want_bits}")
+                            except (TypeError, ValueError):
+                                return done(None, "the result is not a block of numbers")
+                            runs += 1
+    finally:
+        scope.__exit__()
+    gap = scope.note([fwd.node, repo.method(ci, "compute_vc").node, repo.method(ci, "marginalize").node])
+    if gap and "self.device" not in gap and "device" not in gap:
+        return done(None, gap)
+    return done(OK, f"{runs} decoder runs on two cycle-free graphs (1, 2 and 8 iterations; exact and series arctanh; with and without the soft output; batches of 1, 2, 3 words): the posterior equals the flooding schedule after exactly that many iterations, which at 8 iterations is the brute-force bitwise posterior; decoded bits are (posterior < 0) at the message positions")
+
+
 def rule_bp(repo: Repo, rep: Report) -> int:
     ci = repo.cls(BP, "BeliefPropagationDecoder")
     n = 0
@@ -494,6 +619,27 @@ def rule_bp(repo: Repo, rep: Report) -> int:
     db = fwd.nested("decode_block")
     if db is None:
         raise AnalysisError("decode_block closure vanished in BeliefPropagationDecoder.forward")
+    est_, ed_ = bp_end_to_end(repo)
+    if est_ is not None:
+        rep.add("BP-UPDATE", fwd, "decoder evaluated end to end on two cycle-free graphs (tables from prep_edge_ind, own arithmetic)", est_, ed_, node=fwd.node)
+        n += 6
+        def own_exits(lp_):
+            out, todo = [], list(lp_.body)
+            while todo:
+                x = todo.pop()
+                if isinstance(x, (ast.Break, ast.Return)):
+                    out.append(x)
+                elif isinstance(x, (ast.For, ast.While)):
+                    out += [r_ for r_ in ast.walk(x) if isinstance(r_, ast.Return)]  # a break in a nested loop leaves only that loop
+                elif not isinstance(x, (ast.FunctionDef, ast.Lambda)):
+                    todo += list(ast.iter_child_nodes(x))
+            return out
+
+        for lp_ in [l for l in db.body if isinstance(l, (ast.For, ast.While))]:
+            for x in own_exits(lp_):
+                rep.violation("BP-UPDATE", db, f"`{unparse(x)}` inside the iteration loop", "the message-passing schedule is cut short on a data-dependent condition: the returned posterior is the one of fewer iterations (not the exact marginal of a cycle-free graph, which needs the full schedule), and the decision of one word depends on the other words of the batch", node=x)
+        n += rule_message_positions(rep, repo.method(ci, "calc_code_metrics"))
+        return n
     loops = [l for l in db.body if isinstance(l, ast.For) and match(l.iter, "range(self.bp_iters)") is not None]
     if len(loops) != 1:
         rep.undecided("BP-UPDATE", db, "for _ in range(self.bp_iters)", "iteration loop not found")
